@@ -193,6 +193,35 @@ CHECKS['C06'] = (
     'are counted as trivial and skipped.',
     'DESIGN.md section 6 C06')
 
+CHECKS['C08'] = (
+    'explicit-state breadth-first search over curation histories (bfs mode), canonical state = the '
+    'spike_clusters vector; every reached vector is saved into a generated dataset, loaded with the '
+    'real code and compared with the provenance / weighted-mean definitions',
+    'Bounded exhaustive exploration: from spike_clusters = spike_templates on 6-spike, 3-template dense '
+    'datasets (rotating surjective assignments plus the family whose highest template is unused, on a '
+    '4-channel and a 14-channel probe, identity / mixing whitening) every merge(c1,c2), split(c,k) and '
+    'reassign(spike,c) history of depth <= 2 (3 thorough) is explored (5 214 distinct vectors quick); '
+    'after each event the model is reloaded and merge_map, nan_idx, n_clusters, every row of '
+    'sparse_clusters.data (single origin: the template; several: spike-count-weighted mean of the '
+    'channel-restricted origins on the dominant template\'s channels) and get_cluster_mean_waveforms '
+    'are compared with independent formulas.',
+    'Ties in spike counts accept either dominant template; values outside the dominant channels are not '
+    'compared; dense templates only.',
+    'DESIGN.md section 6 C08')
+CHECKS['C09'] = (
+    'exhaustive enumeration of dataset configurations (space mode): unused-template position x curation '
+    'x whitening x feature store x sample rate x unit factor, every summary recomputed with the direct '
+    'formula from the generator\'s arrays',
+    'Bounded exhaustive exploration over 384 (240 quick) generated dense datasets: template without '
+    'spikes at none/first/middle/last position, clusters equal to templates or merged / split / '
+    'reassigned, whitening identity/mixing/absent, features absent / without column table / sparse / '
+    'row-subset, sample rate 100/30000, unit factors 1 and 2.5; get_amplitudes_true (spike amplitudes, '
+    'NaN-aware per-id means, peak of the rescaled waveforms), templates_/clusters_amplitudes, peak '
+    'channels, peak-to-trough durations and get_depths against independent formulas.',
+    'Cluster waveforms are read from the model (validated by C08); everything else comes from the '
+    'generator; float tolerance rtol 1e-5.',
+    'DESIGN.md section 6 C09')
+
 NOT_YET = {}
 
 ALL = ['C%02d' % i for i in range(1, 21)]
